@@ -35,6 +35,9 @@ def families(seed):
         ("log8", [4 + s, 3, 2**32 - 2, 15]),
         ("log8", [4 + s, 3, 2**32 - 1, 14]),
         ("log8", [4 + s, 3, 10**6, 15]),
+        # the two log widths with IDENTICAL explicit (max_count, num_reserved): only the counter
+        # type differs
+        ("log16", [4 + s, 3, 10**6, 15]),
         # neighbouring LARGE max_counts: the derived float base is identical, max_count is not
         ("log16", [4 + s, 3, 2**60, 1023]),
         ("log16", [4 + s, 3, 2**60 + 1, 1023]),
